@@ -77,6 +77,34 @@ def run(ctx):
                     ctx.check(args[1] == ("param", 2) and args[2] == ("param", 3), "R07.1", "%s|forwards-key-value" % name,
                               "the convenience put forwards its key and value unchanged", f.where(bb))
 
+    # ---- R07.5 the caller's test can be stale when the command runs: the worker re-tests before it inserts ---------
+    n_h = 0
+    for name, h in F.fns.items():
+        if h.kind == "Closure":
+            continue
+        ins = [(b, t) for b, t in h.calls() if t.get("rpath") in S.insert_fns]
+        if not ins or not h.rec.get("ret", "").endswith("CommandStatus"):
+            continue
+        n_h += 1
+        ctx.touch(h)
+        for b, t in ins:
+            g = F.fns[t["rpath"]]
+            import c05
+            kp, ip = c05.insert_params(F, g)
+            key = h.op_origin(t["args"][kp - 1]) if kp else None
+            edges = S.absence_edges(h, key, readable_too=True) if key is not None else []
+            ok = bool(edges) and b not in h.reach([0], avoid_edges=edges)
+            ctx.check(ok, "R07.5", "%s|worker-retests-before-insert" % name,
+                      "on the worker a put inserts only after the presence / readability predicate reported its key absent at execution time (an earlier queued put of the same key may have been applied since the caller looked)",
+                      h.where(b), "key=%s" % (fmt(key) if key is not None else "?"))
+            # and the readable case is answered KeyAlreadyExists
+            for bb, expr, tt, ft in bool_branches(h):
+                if expr[0] == "call" and (expr[1] in S.presence_fns or expr[1] in S.readable_fns or expr[1] in S.filtered_presence_fns):
+                    vals = [path_return(h, p) for p in enum_paths(h) if (bb, tt) in zip(p, p[1:])]
+                    okv = bool(vals) and all(r[0] == "agg" and r[2] == "Rejected" and mentions(r, lambda s: s[0] == "agg" and s[2] == "KeyAlreadyExists") for r in vals)
+                    ctx.check(okv, "R07.5", "%s|present-is-rejected" % name, "a key found present at execution time is answered Rejected(KeyAlreadyExists)", h.where(bb))
+    ctx.floor("R07.5", "put handlers on the worker", n_h, 2)
+
     # ---- R07.4 the existence test must wait for the shard: try_* lookups answer "absent" while a writer holds it
     for m in ("try_get", "try_get_mut"):
         for f, bb, t in S.ops.get(m, []):
